@@ -27,7 +27,7 @@ SUBSET_CFGS = [
     {"localVarPrefix": "p", "csiMethods": []},
 ]
 
-WANT = ["in_ast", "out_ast", "effective_config"]
+WANT = ["in_ast", "out_ast", "effective_config", "events"]
 
 
 MC_CFGS = {
